@@ -236,7 +236,7 @@ PROPS = {
                           'offline trees has a free frame in the shadow state; a targeted get fails only if its block is not entirely free or lies in '
                           'an offline tree (and succeeds only on free blocks: ownership oracle). Drain flavor: a drain precedes most probes.'),
         'partial': ('proved: drain clears all reservations; after a drain a base-order get succeeds whenever a tree has a positive counter (= a free frame '
-                    'outside offline trees); targeted gets are exact (C02); completeness of targeted gets carried by the correspondence'),
+                    'outside offline trees); targeted gets are exact (C02) and complete (a free block in a tree that is not hidden is always obtained); for concurrent interleavings the quiescent drained states are explored'),
         'assumptions': [],
     },
     'C11': {
